@@ -10,6 +10,7 @@ func init() {
 			"(MERGE/GUARD/UNIQ, shared with C07/C04) one Trip per descriptor and one Vehicle per identifier, each entity parser yields a trip/vehicle whenever the wire carries one; (G7) no package-level state. " +
 			"Not decided: numeric ranges, protobuf decoding, DST arithmetic of the time package.",
 		Rules: []Rule{
+			{Name: "SCAN", Doc: "a loop that does something for each element is not left early (no break out of a processing loop)", MinInstances: 1, Run: func(c *Ctx) { runFullScan(c, realtimeFns(c), "SCAN") }},
 			{Name: "A3", Doc: "wire table against gtfs-realtime.proto", MinInstances: 35, Run: runWireTable},
 			{Name: "LOOPVAR", Doc: "no pointer to a per-loop (go 1.18) iteration variable is kept in the result", MinInstances: 0, Run: func(c *Ctx) { runLoopVarAlias(c, realtimeFns(c), "LOOPVAR") }},
 			{Name: "ZONE", Doc: "instants are expressed in the configured zone", MinInstances: 3, Run: runZoneProvenance},
